@@ -171,6 +171,18 @@ def check_threshold(ctx, f, c, role):
                 return dec_of(f.kids(x)[0])
             if xo['cls'] == 'CompoundAssignOperator' and xo.get('op') == '-=' and f.nodes[f.strip_all_casts(f.kids(x)[1])].get('value') == 1:
                 return 'pre'
+            # a plain read of the counter: the decrement is a statement of its own, before (value seen = after the decrement) or after
+            # the comparison (value seen = before it)
+            if xo['cls'] in ('MemberExpr', 'DeclRefExpr') and data_field(path(f, x)) == 'triggerCount':
+                decs = [m for m, mo in f.nodes.items()
+                        if (mo['cls'] == 'UnaryOperator' and mo.get('op') == '--' and data_field(path(f, f.kids(m)[0])) == 'triggerCount')
+                        or (mo['cls'] == 'CompoundAssignOperator' and mo.get('op') == '-=' and data_field(path(f, f.kids(m)[0])) == 'triggerCount'
+                            and f.nodes[f.strip_all_casts(f.kids(m)[1])].get('value') == 1)]
+                if len(decs) == 1 and f.pos(decs[0]) and f.pos(n):
+                    if f.pos_dominates(f.pos(decs[0]), f.pos(n)) and f.pos(decs[0]) != f.pos(n):
+                        return 'pre'
+                    if f.pos_dominates(f.pos(n), f.pos(decs[0])) and f.pos(decs[0]) != f.pos(n):
+                        return 'post'
             return None
 
         def const_of(x):
